@@ -334,11 +334,13 @@ bytes written for that request are one well-formed v2 batch which the independen
 and which carries exactly the batch's messages — that many, in batch order, contents untouched, millisecond
 timestamps.  So "what the Writer hands to produce" and "what is on the wire" are one statement: the records the
 broker appends are the batch the theorems above speak about.  (Uncompressed, as C05's writer theorem; the request is
-never empty: `produce_nonempty`.) -/
+never empty: `produce_nonempty`; `hlog`: the Writer never sets the timestamp-type bit — since C05-D30 the Spec gives the
+records of a LogAppendTime batch the batch's append time.) -/
 theorem produce_on_the_wire (cfg : Cfg) (s s' : State) (hr : Reachable cfg s) (pw : Nat) (tp : TP) (msgs : List Msg) (out : BrOut)
     (hs : step cfg s (.produce pw tp msgs out) = some s')
     (payload : Msg → Model.RecordWriter.PRec) (crc : Bytes → Nat) (hcrc : ∀ b, crc b < RW.M32) (attrs now : Int)
-    (hwf : (Model.RecordWriter.frameOfV2 attrs now (msgs.map payload)).WF) (hcodec : Spec.RB.codecOf attrs = 0) :
+    (hwf : (Model.RecordWriter.frameOfV2 attrs now (msgs.map payload)).WF) (hcodec : Spec.RB.codecOf attrs = 0)
+    (hlog : Spec.RB.logAppend attrs = false) :
     ∃ bytes f, Model.RecordWriter.writeV2 crc attrs now (msgs.map payload) = some bytes ∧
       Spec.RB.readFrame crc bytes = some (f, []) ∧ f.count = msgs.length ∧
       Spec.RB.flattenEntry ⟨crc, crc⟩ (fun _ _ => none) (.batch f) =
@@ -359,7 +361,7 @@ theorem produce_on_the_wire (cfg : Cfg) (s s' : State) (hr : Reachable cfg s) (p
     rw [← hm] at he
     exact this (List.map_eq_nil_iff.mp he)
   have hne' : msgs.map payload ≠ [] := fun h => hne (List.map_eq_nil_iff.mp h)
-  obtain ⟨bytes, f, h1, h2, -, h4, -, h6⟩ := Model.RecordWriter.writeV2_spec crc hcrc attrs now (msgs.map payload) hne' hwf hcodec
+  obtain ⟨bytes, f, h1, h2, -, h4, -, h6⟩ := Model.RecordWriter.writeV2_spec crc hcrc attrs now (msgs.map payload) hne' hwf hcodec hlog
   exact ⟨bytes, f, h1, h2, by rw [h4, List.length_map], h6⟩
 
 /-- **acked_has_journal_entry** — "acknowledged" is the broker's own record: a batch counts as acknowledged exactly
